@@ -59,10 +59,11 @@ static int cb_is_true(const uscxml_ctx *c, const char *e) {
   return ans_c[ci];
 }
 static unsigned char done_set[USCXML_MAX_NR_STATES_BYTES + 8];
-static int done_bad;
+static int done_bad, done_twice;
 static int cb_done(const uscxml_ctx *c, const uscxml_state *s, const uscxml_elem_donedata *d) {
   long idx = s - &USCXML_MACHINE.states[0];
   if (idx < 0 || idx >= D_N) { done_bad = 1; return 0; }
+  if (done_set[idx >> 3] & (1u << (idx & 7))) done_twice = 1;
   done_set[idx >> 3] |= (unsigned char)(1u << (idx & 7));
   return 0;
 }
@@ -152,6 +153,7 @@ static int ok_state(const uscxml_ctx *c) { return legal_config(c->config) && (sk
 static const char *post_clauses(const uscxml_ctx *pre, const uscxml_ctx *c, int r, int pre_ok) {
   if (done_bad) return "raise_done_event received a pointer outside the state table";
   if (order_bad) return order_bad;
+  if (done_twice) return "a done event was raised twice for the same state in one step";
   if (!(pre->flags & USCXML_CTX_FINISHED) && (c->flags & USCXML_CTX_FINISHED))
     for (int i = 0; i < D_N; i++) if (sp_bit(c->invocations, i)) return "a finished machine has an invocation left running";
   if ((c->flags & USCXML_CTX_TOP_LEVEL_FINAL) && !(pre->flags & USCXML_CTX_TOP_LEVEL_FINAL) && r == USCXML_ERR_OK) {
@@ -256,7 +258,7 @@ int main(int argc, char **argv) {
     int pre_ok = (pre.flags == 0) || ((pre.flags & USCXML_CTX_INITIALIZED) && !(pre.flags & USCXML_CTX_TRANSITION_FOUND) && ok_state(&pre));
     printf("pre-state flags=%d ", pre.flags); show("config", pre.config); printf(" "); show("history", pre.history); printf(" legal=%d\n", pre_ok);
     for (answers = 0; answers < (1ULL << nbits); answers++) {
-      uscxml_ctx c = pre; apos = 0; done_bad = 0; memset(done_set, 0, sizeof done_set); new_pass(); int_last_null = 0; order_bad = 0; memset(xl, 0, sizeof xl); memset(el, 0, sizeof el); memset(tl, 0, sizeof tl); log_bad = 0; log_phase = 0; log_last = 0;
+      uscxml_ctx c = pre; apos = 0; done_bad = 0; done_twice = 0; memset(done_set, 0, sizeof done_set); new_pass(); int_last_null = 0; order_bad = 0; memset(xl, 0, sizeof xl); memset(el, 0, sizeof el); memset(tl, 0, sizeof tl); log_bad = 0; log_phase = 0; log_last = 0;
 #if D_SEQ > 0
       seq_expect = 0; seq_bad = 0; memset(seq_started, 0, sizeof seq_started); memset(seq_loop, 0, sizeof seq_loop); fe_budget = 2;
 #endif
